@@ -73,6 +73,8 @@ Fixpoint find_op_of_comma_rev (rres : list (token D)) (cnt : Z) (pos : nat) : op
   | [] => None
   | t :: tl =>
       let cnt' := match t with TClose => (cnt - 1)%Z | TOpen => (cnt + 1)%Z | _ => cnt end in
+      (* the search stays inside the parenthesis that encloses the comma (take_while paren_cnt <= 1) *)
+      if (1 <? cnt')%Z then None else
       match t with
       | TOp _ => if (cnt' =? 1)%Z then Some pos else find_op_of_comma_rev tl cnt' (S pos)
       | _ => find_op_of_comma_rev tl cnt' (S pos)
